@@ -23,6 +23,19 @@ type hdrRow struct {
 	CodeOK bool  `json:"codeok"`
 }
 
+// chunkReader returns at most n bytes per Read.
+type chunkReader struct {
+	r io.Reader
+	n int
+}
+
+func (c *chunkReader) Read(p []byte) (int, error) {
+	if len(p) > c.n {
+		p = p[:c.n]
+	}
+	return c.r.Read(p)
+}
+
 func errClass(err error) string {
 	switch {
 	case err == nil:
@@ -113,7 +126,11 @@ func hdrRun(args []string) error {
 					// Reader path: every accepted header, and the rejects next to it
 					if accept || hc == (r.HC+1)%256 || hc == 0 {
 						readerRuns[g]++
-						src := bytes.NewReader(append(append([]byte{}, hdr...), body...))
+						// the source hands the header over whole, byte by byte, or in 3-byte pieces
+						var src io.Reader = bytes.NewReader(append(append([]byte{}, hdr...), body...))
+						if k := readerRuns[g] % 3; k != 0 {
+							src = &chunkReader{r: src, n: []int{1, 3}[k-1]}
+						}
 						zr := shared
 						if readerRuns[g]%5 == 0 {
 							zr = lz4.NewReader(src)
